@@ -23,7 +23,7 @@ ASSUMPTIONS = ['initial exits are declared well-formed (stop on the losing side,
                'price); jesse replaces wrong-sided initial exits by market orders, a documented convenience outside the statement',
                'current price = position.current_price at the instant of submission (equals strategy.price)',
                'decisions closer than 1e-12 to the 0.015 % threshold accept either type']
-MIN_OBS = {'declared_rows_checked': 3000, 'routed_rows': 2000, 'routed_rows_near_boundary': 150, 'exit_modifications': 200, 'after_checks_with_position': 2000,
+MIN_OBS = {'stops_declared_inside_an_entry_ladder': 30, 'declared_rows_checked': 3000, 'routed_rows': 2000, 'routed_rows_near_boundary': 150, 'exit_modifications': 200, 'after_checks_with_position': 2000,
            'cancel_decisions_yes': 150, 'cancel_decisions_no': 150, 'sweep_points': 1500}
 TH = 0.00015
 
@@ -302,13 +302,18 @@ def _session(job):
         sc['cancel_policy'] = rng.choice(['rnd', 'rnd', 'never', 'always'])
         sc['entry'] = rng.choice(['limit', 'stop', 'ladder', 'mixed', 'near'])
         sc['p_enter'] = rng.choice([0.2, 0.4])
+        if job['i'] % 5 == 2 and spec['config']['type'] != 'spot':
+            # an entry ladder with its exits declared in go_long / go_short and the stop BETWEEN the first two rungs
+            sc.update(entry='ladder', exits_in='go', sl_inside_ladder=True, sl=sc.get('sl') or 0.01, sl_points=1, entry_dist=0.004)
         if job['i'] % 5 == 4:
             start = list(spec['candles'].values())[0].get('start', 100.0)
             sc.update(abs_exits=[round(start * 0.97, 4), round(start * 1.03, 4)], fixed_qty=round(50.0 / start, 4), entry='market',
                       p_update=0.0, on_reduced=None, on_increased=None, sides='long' if spec['config']['type'] == 'spot' else sc['sides'])
     out = session.run_session(spec, snapshots=True)
+    n_inside = sum(1 for e in out['events'] if e['k'] == 'note' and e.get('what') == 'stop_inside_ladder')
     viol, cnt = check_trace(out['events'], out['error'] is not None)
     cnt['sessions'] = 1
+    cnt['stops_declared_inside_an_entry_ladder'] = n_inside
     if out['error']:
         cnt['sessions_aborted:' + out['error']['type']] = 1
     for x in viol:
